@@ -39,7 +39,7 @@ enum ProbeId { P_rollover, P_rollover_all_generations_present, P_restart_on_empt
                P_crash_after_last_rename_before_open, P_crash_at_open, P_crash_outside_roll, P_torn_tail_glued,
                P_inflight_complete_after_crash, P_inflight_absent_after_crash, P_directory_created_by_policy,
                P_max_gen_one, P_oversized_message, P_recovery_rolled_twice, P_files_handler_wrapper, P_long_entry, P_new_series_after_date_change, P_ten_or_more_generations_on_disk,
-               P_blank_message, P_empty_message, P_default_formatter };
+               P_blank_message, P_empty_message, P_default_formatter, P_second_log };
 const char* const kProbeNames[] = { "rollover", "rollover_with_all_generations_present", "restart_on_empty_generation0",
                "restart_on_partly_filled_generation0", "restart_on_full_generation0", "crash_in_write_call",
                "crash_between_close_and_first_rename", "crash_between_two_renames", "crash_after_last_rename_before_open",
@@ -47,7 +47,8 @@ const char* const kProbeNames[] = { "rollover", "rollover_with_all_generations_p
                "inflight_message_absent_after_crash", "directory_created_by_policy", "max_gen_one", "oversized_single_message",
                "recovery_rolled_twice",
                "through_files_handler_wrapper", "entry_longer_than_1000_bytes", "new_file_series_after_date_change", "ten_or_more_generation_files_on_disk",
-               "message_of_blanks_only", "empty_message", "default_formatter_of_the_library" };
+               "message_of_blanks_only", "empty_message", "default_formatter_of_the_library",
+               "second_independent_log_in_the_same_process" };
 
 /// formatter for the files::Handler wrapper: the message text as it is (the
 /// default formatter adds fields and a line end of its own)
@@ -92,6 +93,10 @@ struct Run
    std::unique_ptr< celma::log::detail::ILogDest>   wrapped;
    bool             wrapper = false;
    bool             default_formatter = false;   // wrapper mode: the library's own formatter
+   /// a second, independent log of the same process (another base name and
+   /// another date format, files in the same directory) that gets a message
+   /// in front of every message of the log under test
+   std::unique_ptr< celma::log::files::PolicyBase>  other_log;
    bool             degraded = false;
    int              rolls_seen = 0;
    int              restarts_seen = 0;
@@ -895,6 +900,29 @@ struct Run
          }
       }
 
+      if (plan.geti( "second_log", 0) != 0 && use_date && isOpen())
+      {
+         namespace fn = celma::log::filename;
+         try
+         {
+            fn::Definition  def2;
+            fn::Creator     c( def2);
+            c << std::string( "/simfs/" + dir + "/zz-") << fn::formatString( "%Y-%m") << fn::date << std::string( ".");
+            if (width > 0)
+               c << width << '0' << fn::number;
+            else
+               c << fn::number;
+            if (!ext.empty())
+               c << ext;
+            other_log.reset( new celma::log::files::Counted( def2, 2, 2));
+            other_log->open();
+            st.probe( P_second_log);
+         } catch (const std::exception&)
+         {
+            other_log.reset();
+         }
+      }
+
       const Json&  ops = plan.get( "ops");
       for (size_t oi = 0; oi < ops.size() && res.ok(); ++oi)
       {
@@ -1001,6 +1029,11 @@ struct Run
             // the very first open failed under an injected fault: nothing to write to
             cur.may_be_missing = true;
             continue;
+         }
+         if (other_log)
+         {
+            celma::log::detail::LogMsg  lm2( "c15.cpp", "other", static_cast< int>( oi));
+            try { other_log->writeMessage( lm2, "other " + std::to_string( oi)); } catch (const std::exception&) {}
          }
          fs::opBegin( faults);
          ExecResult  er = guarded( [ &] { writeSink( cur.text, static_cast< int>( oi)); }, what);
@@ -1169,6 +1202,7 @@ public:
       // the library's own formatter instead of the text-only one: fault-free
       // histories only (a line torn inside the fields could not be attributed)
       if (plan.geti( "wrapper") != 0 && counted && mode <= 2 && cfg.chance( 1, 2)) plan[ "default_formatter"] = true;
+      if (nm.geti( "variant") == 3 && mode <= 2 && cfg.chance( 1, 2)) plan[ "second_log"] = true;
       const size_t    max_ops = thorough ? 40 : 24;
       size_t          nops = 1 + static_cast< size_t>( wl.below( wl.chance( 1, 3) ? 6 : max_ops));
       if (many_generations) nops = max_ops;
@@ -1262,6 +1296,7 @@ public:
       r.execute();
       fs::traceTo( nullptr);
       r.closeSink();
+      r.other_log.reset();
       const size_t  leaked = fs::closeLeaked();
       (void) leaked;
       st.state( (static_cast< uint64_t>( r.counted) << 24) | (static_cast< uint64_t>( r.limit & 0xffff) << 8)
